@@ -80,49 +80,29 @@ Proof. unfold m_floor. rewrite land_m64. reflexivity. Qed.
 Lemma no_trap_floor x : m_floor x <> None.
 Proof. rewrite m_floor_spec. discriminate. Qed.
 
-Lemma m_round_trap_iff x : i32 x -> (m_round x <> None <-> x <= 2147483615).
-Proof.
-  intros Hx. unfold m_round, add32. unfold i32 in *. chk32 (x + 32).
-  - rewrite m_floor_spec. split; [intros _; unfold i32 in *; lia|discriminate].
-  - split; [intros Hnn; exfalso; apply Hnn; reflexivity|intros; exfalso; apply Hc; unfold i32; lia].
-Qed.
+Lemma no_trap_round x : m_round x <> None.
+Proof. unfold m_round. apply no_trap_floor. Qed.
 Lemma m_round_some x : i32 x -> x <= 2147483615 -> m_round x = Some ((x + 32) / 64 * 64).
 Proof.
-  intros Hx H. unfold m_round, add32. rewrite chk_s32_some by (unfold i32 in *; lia).
-  cbn [obind]. apply m_floor_spec.
+  intros Hx H. unfold m_round. rewrite wrap_s32_id by (unfold i32 in *; lia). apply m_floor_spec.
 Qed.
-Lemma m_ceil_trap_iff x : i32 x -> (m_ceil x <> None <-> x <= 2147483584).
-Proof.
-  intros Hx. unfold m_ceil, add32. unfold i32 in *. chk32 (x + 63).
-  - rewrite m_floor_spec. split; [intros _; unfold i32 in *; lia|discriminate].
-  - split; [intros Hnn; exfalso; apply Hnn; reflexivity|intros; exfalso; apply Hc; unfold i32; lia].
-Qed.
+Lemma no_trap_ceil x : m_ceil x <> None.
+Proof. unfold m_ceil. apply no_trap_floor. Qed.
 Lemma m_ceil_some x : i32 x -> x <= 2147483584 -> m_ceil x = Some ((x + 63) / 64 * 64).
 Proof.
-  intros Hx H. unfold m_ceil, add32. rewrite chk_s32_some by (unfold i32 in *; lia).
-  cbn [obind]. apply m_floor_spec.
+  intros Hx H. unfold m_ceil. rewrite wrap_s32_id by (unfold i32 in *; lia). apply m_floor_spec.
 Qed.
-Lemma m_floor_pad_trap_iff x n : i32 n -> (m_floor_pad x n <> None <-> n <> -2147483648).
-Proof.
-  intros Hn. unfold m_floor_pad, sub32. unfold i32 in *. chk32 (n - 1).
-  - split; [unfold i32 in *; lia|discriminate].
-  - split; [intros Hnn; exfalso; apply Hnn; reflexivity|intros; exfalso; apply Hc; unfold i32; lia].
-Qed.
-Lemma m_round_pad_trap_iff x n : i32 x -> i32 n ->
-  (m_round_pad x n <> None <-> i32 (x + Z.quot n 2) /\ n <> -2147483648).
-Proof.
-  intros Hx Hn. unfold m_round_pad. rewrite div32_some by lia. cbn [obind]. unfold add32.
-  chk32 (x + Z.quot n 2).
-  - rewrite (m_floor_pad_trap_iff _ n Hn). tauto.
-  - split; [intros Hnn; exfalso; apply Hnn; reflexivity|tauto].
-Qed.
+Lemma no_trap_floor_pad x n : m_floor_pad x n <> None.
+Proof. discriminate. Qed.
+Lemma no_trap_round_pad x n : m_round_pad x n <> None.
+Proof. unfold m_round_pad. rewrite div32_some by lia. cbn [obind]. discriminate. Qed.
 Lemma m_round_pad32_some x : i32 x -> x <= 2147483631 ->
   m_round_pad x 32 = Some ((x + 16) / 32 * 32).
 Proof.
   intros Hx H. unfold m_round_pad. rewrite div32_some by lia. cbn [obind].
-  change (Z.quot 32 2) with 16. unfold add32. rewrite chk_s32_some by (unfold i32 in *; lia).
-  cbn [obind]. unfold m_floor_pad, sub32. rewrite chk_s32_some by (unfold i32; lia). cbn [obind].
-  change (Z.lnot (32 - 1)) with (- 2 ^ 5). rewrite land_neg_pow2 by lia. reflexivity.
+  change (Z.quot 32 2) with 16. rewrite wrap_s32_id by (unfold i32 in *; lia).
+  unfold m_floor_pad. change (wrap_s 32 (32 - 1)) with 31.
+  change (Z.lnot 31) with (- 2 ^ 5). rewrite land_neg_pow2 by lia. reflexivity.
 Qed.
 
 Lemma no_trap_mul a b : i32 a -> i32 b -> m_mul a b = Some (fixed_mul a b).
@@ -183,42 +163,49 @@ Proof.
   rewrite chk_s64_some by (unfold i64; lia). cbn [obind]. discriminate.
 Qed.
 
-(* mul_div_no_round: a sufficient domain (no operand is i32::MIN and the truncated quotient fits i32) *)
-Lemma no_trap_mul_div_no_round a b c : i32 a -> i32 b -> i32 c ->
-  a <> -2147483648 -> b <> -2147483648 -> c <> -2147483648 ->
-  (c <> 0 -> Z.abs a * Z.abs b / Z.abs c <= 2147483647) ->
-  m_mul_div_no_round a b c <> None.
+(* mul_div_no_round: total on i32 after the wrapping_neg repair *)
+Lemma wneg_range x : i32 (wneg x).
+Proof. unfold wneg. apply wrap_s32_range. Qed.
+Lemma no_trap_mul_div_no_round a b c : i32 a -> i32 b -> i32 c -> m_mul_div_no_round a b c <> None.
 Proof.
-  intros Ha Hb Hc Na Nb Nc Hq. unfold m_mul_div_no_round. cbv zeta. unfold i32 in *.
-  assert (Ea : (if a <? 0 then neg32 a else Some a) = Some (Z.abs a)).
-  { destruct (a <? 0) eqn:E; [unfold neg32; rewrite chk_s32_some by (unfold i32; lia)|]; f_equal; lia. }
-  assert (Eb : (if b <? 0 then neg32 b else Some b) = Some (Z.abs b)).
-  { destruct (b <? 0) eqn:E; [unfold neg32; rewrite chk_s32_some by (unfold i32; lia)|]; f_equal; lia. }
-  assert (Ec : (if c <? 0 then neg32 c else Some c) = Some (Z.abs c)).
-  { destruct (c <? 0) eqn:E; [unfold neg32; rewrite chk_s32_some by (unfold i32; lia)|]; f_equal; lia. }
-  rewrite Ea. cbn [obind]. rewrite Eb. cbn [obind].
+  intros Ha Hb Hc. unfold m_mul_div_no_round. cbv zeta.
   set (s1 := if a <? 0 then -1 else 1).
   assert (Hs1 : s1 = 1 \/ s1 = -1) by (subst s1; destruct (a <? 0); auto).
   assert (E2 : (if b <? 0 then neg32 s1 else Some s1) = Some (if b <? 0 then - s1 else s1)).
   { destruct (b <? 0); [apply neg32_sign; exact Hs1|reflexivity]. }
-  rewrite E2. cbn [obind]. rewrite Ec. cbn [obind].
+  rewrite E2. cbn [obind].
   set (s2 := if b <? 0 then - s1 else s1).
   assert (Hs2 : s2 = 1 \/ s2 = -1) by (subst s2; destruct (b <? 0); lia).
   assert (E3 : (if c <? 0 then neg32 s2 else Some s2) = Some (if c <? 0 then - s2 else s2)).
   { destruct (c <? 0); [apply neg32_sign; exact Hs2|reflexivity]. }
   rewrite E3. cbn [obind].
-  destruct (0 <? Z.abs c) eqn:Epos.
-  - unfold mul64. assert (Hp : 0 <= Z.abs a * Z.abs b <= 4611686014132420609) by nia.
+  set (a' := if a <? 0 then wneg a else a).
+  set (b' := if b <? 0 then wneg b else b).
+  set (c' := if c <? 0 then wneg c else c).
+  assert (Ha' : i32 a') by (subst a'; destruct (a <? 0); [apply wneg_range|exact Ha]).
+  assert (Hb' : i32 b') by (subst b'; destruct (b <? 0); [apply wneg_range|exact Hb]).
+  unfold i32 in Ha', Hb'.
+  destruct (0 <? c') eqn:Epos.
+  - unfold mul64. assert (Hp : -4611686018427387904 <= a' * b' <= 4611686018427387904) by nia.
     rewrite chk_s64_some by (unfold i64; lia). cbn [obind].
-    unfold div_s. replace (Z.abs c =? 0) with false by lia.
-    replace (Z.abs c =? -1) with false by lia. rewrite andb_false_r. cbn [obind].
-    rewrite Z.quot_div_nonneg by lia.
-    assert (Hq' : 0 <= Z.abs a * Z.abs b / Z.abs c <= 2147483647).
-    { split; [apply Z.div_pos; lia|apply Hq; lia]. }
-    rewrite wrap_s32_id by (unfold i32; lia).
-    match goal with |- (if ?bb then _ else _) <> None => destruct bb end; [unfold neg32; rewrite chk_s32_some by (unfold i32; lia)|]; discriminate.
-  - cbn [obind]. change (wrap_s 32 2147483647) with 2147483647.
-    match goal with |- (if ?bb then _ else _) <> None => destruct bb end; [unfold neg32; rewrite chk_s32_some by (unfold i32; lia)|]; discriminate.
+    unfold div_s. replace (c' =? 0) with false by lia. replace (c' =? -1) with false by lia.
+    rewrite andb_false_r. cbn [obind]. discriminate.
+  - cbn [obind]. discriminate.
+Qed.
+(* on the old trap-free domain the repaired function computes what it always did *)
+Lemma mul_div_no_round_value a b c : i32 a -> i32 b -> i32 c -> 0 <= a -> 0 <= b -> 0 < c ->
+  a * b / c <= 2147483647 -> m_mul_div_no_round a b c = Some (a * b / c).
+Proof.
+  intros Ha Hb Hc Pa Pb Pc Hq. unfold m_mul_div_no_round. cbv zeta. unfold i32 in *.
+  replace (a <? 0) with false by lia. replace (b <? 0) with false by lia. replace (c <? 0) with false by lia.
+  cbn [obind]. replace (0 <? c) with true by lia.
+  unfold mul64. assert (Hp : 0 <= a * b <= 4611686014132420609) by nia.
+  rewrite chk_s64_some by (unfold i64; lia). cbn [obind].
+  unfold div_s. replace (c =? 0) with false by lia. replace (c =? -1) with false by lia.
+  rewrite andb_false_r. cbn [obind]. rewrite Z.quot_div_nonneg by lia.
+  change (1 <? 0) with false. cbv iota.
+  rewrite wrap_s32_id; [reflexivity|]. unfold i32. split; [|lia].
+  assert (0 <= a * b / c) by (apply Z.div_pos; lia). lia.
 Qed.
 
 Lemma log2_u32 u : 0 < u < 4294967296 -> 0 <= Z.log2 u <= 31.
@@ -246,86 +233,40 @@ Qed.
 Lemma no_trap_rs_off d : rs_off d <> None.
 Proof. discriminate. Qed.
 
-Lemma rs_grid_trap_iff d : i32 d -> (rs_grid d <> None <-> -2147483615 <= d <= 2147483615).
-Proof.
-  intros Hd. unfold rs_grid. unfold i32 in *. destruct (0 <=? d) eqn:E.
-  - destruct (Z_le_dec d 2147483615).
-    + rewrite m_round_some by (unfold i32; lia). cbn [obind]. split; [lia|discriminate].
-    + assert (Hn : m_round d = None).
-      { destruct (m_round d) eqn:Em; [|reflexivity]. exfalso.
-        assert (m_round d <> None) by congruence. rewrite m_round_trap_iff in H by (unfold i32; lia). lia. }
-      rewrite Hn. cbn [obind]. split; [intros Hnn; exfalso; apply Hnn; reflexivity|lia].
-  - unfold neg32. chk32 (- d).
-    + unfold i32 in *. destruct (Z_le_dec (- d) 2147483615).
-      * rewrite m_round_some by (unfold i32; lia). cbn [obind].
-        rewrite chk_s32_some by (unfold i32; lia). cbn [obind]. split; [lia|discriminate].
-      * assert (Hn : m_round (- d) = None).
-        { destruct (m_round (- d)) eqn:Em; [|reflexivity]. exfalso.
-          assert (m_round (- d) <> None) by congruence. rewrite m_round_trap_iff in H by (unfold i32; lia). lia. }
-        rewrite Hn. cbn [obind]. split; [intros Hnn; exfalso; apply Hnn; reflexivity|lia].
-    + split; [intros Hnn; exfalso; apply Hnn; reflexivity|unfold i32 in *; lia].
-Qed.
+Lemma wneg_id x : i32 x -> x <> -2147483648 -> wneg x = - x.
+Proof. intros H N. unfold wneg. apply wrap_s32_id. unfold i32 in *. lia. Qed.
 
-Lemma rs_half_grid_trap_iff d : i32 d -> (rs_half_grid d <> None <-> d <> -2147483648).
-Proof.
-  intros Hd. unfold rs_half_grid. unfold i32 in *. destruct (0 <=? d) eqn:E.
-  - rewrite m_floor_spec. cbn [obind]. unfold add32.
-    rewrite chk_s32_some by (unfold i32; lia). cbn [obind]. split; [lia|discriminate].
-  - unfold neg32. chk32 (- d).
-    + unfold i32 in *. rewrite m_floor_spec. cbn [obind]. unfold add32.
-      rewrite chk_s32_some by (unfold i32; lia). cbn [obind].
-      rewrite chk_s32_some by (unfold i32; lia). cbn [obind]. split; [lia|discriminate].
-    + split; [intros Hnn; exfalso; apply Hnn; reflexivity|unfold i32 in *; lia].
-Qed.
+Ltac via H := match goal with |- context [obind ?o _] =>
+  let E := fresh "E" in destruct o eqn:E; [cbn [obind]; discriminate|exfalso; exact (H _ E)] end.
 
-Lemma rs_down_to_grid_trap_iff d : i32 d -> (rs_down_to_grid d <> None <-> d <> -2147483648).
+Lemma no_trap_rs_grid d : rs_grid d <> None.
 Proof.
-  intros Hd. unfold rs_down_to_grid. unfold i32 in *. destruct (0 <=? d) eqn:E.
-  - rewrite m_floor_spec. cbn [obind]. split; [lia|discriminate].
-  - unfold neg32. chk32 (- d).
-    + unfold i32 in *. rewrite m_floor_spec. cbn [obind].
-      rewrite chk_s32_some by (unfold i32; lia). cbn [obind]. split; [lia|discriminate].
-    + split; [intros Hnn; exfalso; apply Hnn; reflexivity|unfold i32 in *; lia].
+  assert (H : forall x, m_round x = None -> False) by (intros x; apply no_trap_round).
+  unfold rs_grid. destruct (0 <=? d); via H.
 Qed.
-
-Lemma rs_up_to_grid_trap_iff d : i32 d -> (rs_up_to_grid d <> None <-> -2147483584 <= d <= 2147483584).
+Lemma no_trap_rs_half_grid d : rs_half_grid d <> None.
+Proof. unfold rs_half_grid, m_floor. destruct (0 <=? d); cbn [obind]; discriminate. Qed.
+Lemma no_trap_rs_double_grid d : rs_double_grid d <> None.
 Proof.
-  intros Hd. unfold rs_up_to_grid. unfold i32 in *. destruct (0 <=? d) eqn:E.
-  - destruct (Z_le_dec d 2147483584).
-    + rewrite m_ceil_some by (unfold i32; lia). cbn [obind]. split; [lia|discriminate].
-    + assert (Hn : m_ceil d = None).
-      { destruct (m_ceil d) eqn:Em; [|reflexivity]. exfalso.
-        assert (m_ceil d <> None) by congruence. rewrite m_ceil_trap_iff in H by (unfold i32; lia). lia. }
-      rewrite Hn. cbn [obind]. split; [intros Hnn; exfalso; apply Hnn; reflexivity|lia].
-  - unfold neg32. chk32 (- d).
-    + unfold i32 in *. destruct (Z_le_dec (- d) 2147483584).
-      * rewrite m_ceil_some by (unfold i32; lia). cbn [obind].
-        rewrite chk_s32_some by (unfold i32; lia). cbn [obind]. split; [lia|discriminate].
-      * assert (Hn : m_ceil (- d) = None).
-        { destruct (m_ceil (- d)) eqn:Em; [|reflexivity]. exfalso.
-          assert (m_ceil (- d) <> None) by congruence. rewrite m_ceil_trap_iff in H by (unfold i32; lia). lia. }
-        rewrite Hn. cbn [obind]. split; [intros Hnn; exfalso; apply Hnn; reflexivity|lia].
-    + split; [intros Hnn; exfalso; apply Hnn; reflexivity|unfold i32 in *; lia].
+  assert (H : forall x, m_round_pad x 32 = None -> False) by (intros x; apply no_trap_round_pad).
+  unfold rs_double_grid. destruct (0 <=? d); via H.
 Qed.
-
-Lemma rs_double_grid_trap_iff d : i32 d -> (rs_double_grid d <> None <-> -2147483631 <= d <= 2147483631).
+Lemma no_trap_rs_down_to_grid d : rs_down_to_grid d <> None.
+Proof. unfold rs_down_to_grid, m_floor. destruct (0 <=? d); cbn [obind]; discriminate. Qed.
+Lemma no_trap_rs_up_to_grid d : rs_up_to_grid d <> None.
 Proof.
-  intros Hd. unfold rs_double_grid. unfold i32 in *.
-  assert (Hpad : forall x, i32 x -> 2147483631 < x -> m_round_pad x 32 = None).
-  { intros x Hx Hgt. destruct (m_round_pad x 32) eqn:Em; [|reflexivity]. exfalso.
-    assert (Hnn : m_round_pad x 32 <> None) by congruence.
-    rewrite m_round_pad_trap_iff in Hnn by (unfold i32 in *; lia).
-    change (Z.quot 32 2) with 16 in Hnn. unfold i32 in *. lia. }
-  destruct (0 <=? d) eqn:E.
-  - destruct (Z_le_dec d 2147483631).
-    + rewrite m_round_pad32_some by (unfold i32; lia). cbn [obind]. split; [lia|discriminate].
-    + rewrite Hpad by (unfold i32; lia). clear Hpad. cbn [obind]. split; [intros Hnn; exfalso; apply Hnn; reflexivity|lia].
-  - unfold neg32. chk32 (- d).
-    + unfold i32 in *. destruct (Z_le_dec (- d) 2147483631).
-      * rewrite m_round_pad32_some by (unfold i32; lia). cbn [obind].
-        rewrite chk_s32_some by (unfold i32; lia). cbn [obind]. split; [lia|discriminate].
-      * rewrite Hpad by (unfold i32; lia). clear Hpad. cbn [obind]. split; [intros Hnn; exfalso; apply Hnn; reflexivity|lia].
-    + clear Hpad. split; [intros Hnn; exfalso; apply Hnn; reflexivity|unfold i32 in *; lia].
+  assert (H : forall x, m_ceil x = None -> False) by (intros x; apply no_trap_ceil).
+  unfold rs_up_to_grid. destruct (0 <=? d); via H.
+Qed.
+(* unchanged on the domain that was trap-free before the repair *)
+Lemma rs_grid_value d : -2147483615 <= d <= 2147483615 ->
+  rs_grid d = Some (if 0 <=? d then Z.max ((d + 32) / 64 * 64) 0
+                    else Z.min (- ((- d + 32) / 64 * 64)) 0).
+Proof.
+  intros H. unfold rs_grid. destruct (0 <=? d) eqn:E.
+  - rewrite m_round_some by (unfold i32; lia). reflexivity.
+  - rewrite wneg_id by (unfold i32; lia). rewrite m_round_some by (unfold i32; lia). cbn [obind].
+    rewrite wneg_id by (unfold i32; lia). reflexivity.
 Qed.
 
 (* --- super_round: the only writer of (threshold, phase, period) --- *)
@@ -372,97 +313,35 @@ Proof.
   exists tpp. split; [reflexivity|exact Ht].
 Qed.
 
-(* Super (SROUND): period is 32, 64 or 128 *)
-Lemma rs_super_no_trap t ph pe d :
-  sround_ok 16384 (t, ph, pe) = true -> -2147483376 <= d <= 2147483375 ->
-  rs_super t ph pe d <> None.
+Lemma no_trap_rs_super t ph pe d : rs_super t ph pe d <> None.
+Proof. unfold rs_super. cbv zeta. destruct (0 <=? d); discriminate. Qed.
+Lemma no_trap_rs_super45 t ph pe d : pe <> 0 -> pe <> -1 -> rs_super45 t ph pe d <> None.
 Proof.
-  unfold sround_ok. change (16384 =? 16384) with true. cbv iota. intros Hok Hd.
-  assert (Hpe : pe = 2 ^ 5 \/ pe = 2 ^ 6 \/ pe = 2 ^ 7) by (change (2^5) with 32; change (2^6) with 64; change (2^7) with 128; lia).
-  assert (Hb : 0 <= ph <= 96 /\ -48 <= t <= 176) by lia. clear Hok.
-  unfold rs_super, sub32, add32, neg32.
-  rewrite (chk_s32_some (t - ph)) by (unfold i32; lia).
-  destruct (0 <=? d) eqn:E; cbn [obind].
-  - rewrite (chk_s32_some (d + (t - ph))) by (unfold i32; lia). cbn [obind].
-    rewrite (chk_s32_some (- pe)) by (unfold i32; change (2^5) with 32 in *; change (2^6) with 64 in *; change (2^7) with 128 in *; lia). cbn [obind].
-    assert (Hl : -2147483648 + 0 <= Z.land (d + (t - ph)) (- pe) <= d + (t - ph)).
-    { destruct Hpe as [-> | [-> | ->]]; rewrite land_neg_pow2 by lia;
-        [change (2^5) with 32|change (2^6) with 64|change (2^7) with 128]; lia. }
-    rewrite chk_s32_some by (unfold i32; lia). cbn [obind].
-    match goal with |- (if ?bb then _ else _) <> None => destruct bb end; discriminate.
-  - rewrite (chk_s32_some (t - ph - d)) by (unfold i32; lia). cbn [obind].
-    rewrite (chk_s32_some (- pe)) by (unfold i32; change (2^5) with 32 in *; change (2^6) with 64 in *; change (2^7) with 128 in *; lia). cbn [obind].
-    assert (Hl : t - ph - d - 128 < Z.land (t - ph - d) (- pe) <= t - ph - d).
-    { destruct Hpe as [-> | [-> | ->]]; rewrite land_neg_pow2 by lia;
-        [change (2^5) with 32|change (2^6) with 64|change (2^7) with 128]; lia. }
-    rewrite chk_s32_some by (unfold i32; lia). cbn [obind].
-    rewrite chk_s32_some by (unfold i32; lia). cbn [obind].
-    match goal with |- (if ?bb then _ else _) <> None => destruct bb end; [rewrite chk_s32_some by (unfold i32; lia)|]; discriminate.
+  intros H0 H1. unfold rs_super45. cbv zeta.
+  destruct (0 <=? d); rewrite div32_some by assumption; cbn [obind]; discriminate.
 Qed.
 
-(* Super45 (S45ROUND): period is 22, 45 or 90 *)
-Lemma rs_super45_no_trap t ph pe d :
-  sround_ok 11585 (t, ph, pe) = true -> -2147483376 <= d <= 2147483375 ->
-  rs_super45 t ph pe d <> None.
-Proof.
-  unfold sround_ok. change (11585 =? 16384) with false. cbv iota. intros Hok Hd.
-  assert (Hpe : pe = 22 \/ pe = 45 \/ pe = 90) by lia.
-  assert (Hb : 0 <= ph <= 96 /\ -48 <= t <= 176) by lia. clear Hok.
-  unfold rs_super45, sub32, add32, neg32, mul32.
-  rewrite (chk_s32_some (t - ph)) by (unfold i32; lia).
-  destruct (0 <=? d) eqn:E; cbn [obind].
-  - rewrite (chk_s32_some (d + (t - ph))) by (unfold i32; lia). cbn [obind].
-    rewrite div32_some by lia. cbn [obind].
-    assert (Hq : Z.abs (Z.quot (d + (t - ph)) pe * pe) <= Z.abs (d + (t - ph))).
-    { set (s := d + (t - ph)). destruct (Z_le_dec 0 s).
-      - rewrite Z.quot_div_nonneg by lia. destruct Hpe as [-> | [-> | ->]]; lia.
-      - replace s with (- (- s)) at 1 by lia. rewrite Z.quot_opp_l by lia.
-        rewrite Z.quot_div_nonneg by lia. destruct Hpe as [-> | [-> | ->]]; lia. }
-    rewrite chk_s32_some by (unfold i32; lia). cbn [obind].
-    rewrite chk_s32_some by (unfold i32; lia). cbn [obind].
-    match goal with |- (if ?bb then _ else _) <> None => destruct bb end; discriminate.
-  - rewrite (chk_s32_some (t - ph - d)) by (unfold i32; lia). cbn [obind].
-    rewrite div32_some by lia. cbn [obind].
-    assert (Hq : Z.abs (Z.quot (t - ph - d) pe * pe) <= Z.abs (t - ph - d)).
-    { set (s := t - ph - d). destruct (Z_le_dec 0 s).
-      - rewrite Z.quot_div_nonneg by lia. destruct Hpe as [-> | [-> | ->]]; lia.
-      - replace s with (- (- s)) at 1 by lia. rewrite Z.quot_opp_l by lia.
-        rewrite Z.quot_div_nonneg by lia. destruct Hpe as [-> | [-> | ->]]; lia. }
-    rewrite chk_s32_some by (unfold i32; lia). cbn [obind].
-    rewrite chk_s32_some by (unfold i32; lia). cbn [obind].
-    rewrite chk_s32_some by (unfold i32; lia). cbn [obind].
-    match goal with |- (if ?bb then _ else _) <> None => destruct bb end; [rewrite chk_s32_some by (unfold i32; lia)|]; discriminate.
-Qed.
-
-(* what the interpreter can reach: SROUND / S45ROUND sel followed by ROUND d *)
+(* what the interpreter can reach: SROUND / S45ROUND sel followed by ROUND d, every d *)
 Lemma no_trap_sround_round g sel d : g = 16384 \/ g = 11585 ->
-  -2147483376 <= d <= 2147483375 ->
   exists t ph pe, super_round g sel = Some (t, ph, pe) /\
     rs_round (if g =? 16384 then 6 else 7) t ph pe d <> None.
 Proof.
-  intros Hg Hd. destruct (super_round_reachable g sel Hg) as [[[t ph] pe] [Es Hok]].
+  intros Hg. destruct (super_round_reachable g sel Hg) as [[[t ph] pe] [Es Hok]].
   exists t, ph, pe. split; [exact Es|].
   destruct Hg as [-> | ->].
-  - change (16384 =? 16384) with true. cbv iota. cbn [rs_round]. apply rs_super_no_trap; assumption.
-  - change (11585 =? 16384) with false. cbv iota. cbn [rs_round]. apply rs_super45_no_trap; assumption.
+  - change (16384 =? 16384) with true. cbv iota. cbn [rs_round]. apply no_trap_rs_super.
+  - change (11585 =? 16384) with false. cbv iota. cbn [rs_round].
+    unfold sround_ok in Hok. change (11585 =? 16384) with false in Hok. cbv iota in Hok.
+    apply no_trap_rs_super45; lia.
 Qed.
 
 (* ================= font-types ================= *)
-Lemma fx_neg32_trap_iff a : i32 a -> (fx_neg 32 a <> None <-> a <> -2147483648).
-Proof.
-  intros Ha. unfold fx_neg. rewrite chk_s32_iff. unfold i32 in *. lia.
-Qed.
-Lemma fx_abs32_trap_iff a : i32 a -> (fx_abs 32 a <> None <-> a <> -2147483648).
-Proof.
-  intros Ha. unfold fx_abs. rewrite chk_s32_iff. unfold i32 in *. lia.
-Qed.
-Lemma fx_abs16_trap_iff a : i16 a -> (fx_abs 16 a <> None <-> a <> -32768).
-Proof.
-  intros Ha. unfold fx_abs, chk_s, in_s. change (2 ^ (16 - 1)) with 32768. unfold i16 in *.
-  destruct (_ && _) eqn:E.
-  - split; [intros _; lia|discriminate].
-  - split; [intros Hnn; exfalso; apply Hnn; reflexivity|lia].
-Qed.
+Lemma no_trap_fx_neg_abs bits a : fx_neg bits a <> None /\ fx_abs bits a <> None.
+Proof. split; discriminate. Qed.
+Lemma fx_neg32_value a : i32 a -> a <> -2147483648 -> fx_neg 32 a = Some (- a).
+Proof. intros H N. unfold fx_neg. rewrite wrap_s32_id by (unfold i32 in *; lia). reflexivity. Qed.
+Lemma fx_abs32_value a : i32 a -> a <> -2147483648 -> fx_abs 32 a = Some (Z.abs a).
+Proof. intros H N. unfold fx_abs. rewrite wrap_s32_id by (unfold i32 in *; lia). reflexivity. Qed.
 Lemma no_trap_fract bits f x : 0 <= f < bits - 1 -> fx_fract bits f x <> None.
 Proof. intros H. rewrite fx_fract_total by assumption. discriminate. Qed.
 Lemma no_trap_from_i32 i : fixed_from_i32_chk i <> None /\ f26dot6_from_i32_chk i <> None.
@@ -505,7 +384,7 @@ Proof.
   - rewrite no_trap_div by apply sat_s32_range. cbn [obind].
     assert (Hq : 0 <= fixed_div (sat_s 32 (df - v')) (sat_s 32 (df - mn)) <= 65536).
     { apply fixed_div_ratio_bound; unfold sat_s, clamp; change (2 ^ (32 - 1)) with 2147483648; lia. }
-    unfold fx_neg. rewrite chk_s32_some by (unfold i32; lia). cbn [obind]. discriminate.
+    unfold fx_neg. cbn [obind]. discriminate.
   - destruct (df <? v') eqn:E2.
     + rewrite no_trap_div by apply sat_s32_range. cbn [obind]. discriminate.
     + cbn [obind]. discriminate.
